@@ -13,6 +13,7 @@ import (
 	"strings"
 
 	mnsx "verif/internal/model/nsx"
+	mpan "verif/internal/model/panos"
 	"verif/internal/run"
 )
 
@@ -57,6 +58,8 @@ func genPair(typ string, seed int64) *genCase {
 	switch typ {
 	case "nsx":
 		return genNSX(seed)
+	case "panos":
+		return genPANOS(seed)
 	}
 	return nil
 }
@@ -83,6 +86,8 @@ func runConv(env *run.Env, g *genCase, wantPrefixes bool) *convOutcome {
 	switch g.Type {
 	case "nsx":
 		convNSX(env, g, o, changed, wantPrefixes)
+	case "panos":
+		convPANOS(env, g, o, changed, wantPrefixes)
 	}
 	return o
 }
@@ -194,4 +199,101 @@ func convNSX(env *run.Env, g *genCase, o *convOutcome, changed, wantPrefixes boo
 func mustJSON(v any) string {
 	b, _ := json.MarshalIndent(v, "", " ")
 	return string(b)
+}
+
+// ---------------------------------------------------------------------
+// PAN-OS
+
+func genPANOS(seed int64) *genCase {
+	rng := rand.New(rand.NewSource(seed))
+	gen := &mpan.Gen{Rng: rng}
+	t := gen.Target()
+	d, ops := gen.Device(t, rng.Intn(5))
+	g := &genCase{Type: "panos", Seed: seed, Edits: ops}
+	g.Device = mpan.ConfigXML(d, true, "router")
+	g.Files = map[string]string{"router": mpan.ConfigXML(t, false, "")}
+	dev, err := mpan.Load(g.Device)
+	if err != nil {
+		panic(err)
+	}
+	tgt, err := mpan.Load(g.Files["router"])
+	if err != nil {
+		panic(err)
+	}
+	g.model, g.target = dev, tgt
+	return g
+}
+
+func panosEquiv(dev, tgt *mpan.Device) *clause {
+	for _, vs := range tgt.VsysNames() {
+		a, b := dev.CanonRules(vs), tgt.CanonRules(vs)
+		if len(a) != len(b) {
+			return &clause{"rule-count-differs", fmt.Sprintf("%s: device has %d rules, target %d", vs, len(a), len(b))}
+		}
+		for i := range a {
+			if a[i] != b[i] {
+				return &clause{"rules-differ", fmt.Sprintf("%s rule %d: device %s | target %s", vs, i+1, a[i], b[i])}
+			}
+		}
+	}
+	return nil
+}
+
+func convPANOS(env *run.Env, g *genCase, o *convOutcome, changed, wantPrefixes bool) {
+	dev := g.model.(*mpan.Device).Clone()
+	tgt := g.target.(*mpan.Device)
+	managed := map[string]bool{}
+	for _, n := range tgt.VsysNames() {
+		managed[n] = true
+	}
+	before := dev.OutsideVsys(managed)
+	for _, l := range strings.Split(o.Script, "\n") {
+		if l != "" {
+			o.Commands = append(o.Commands, l)
+		}
+	}
+	if !changed {
+		if c := panosEquiv(dev, tgt); c != nil {
+			o.Conv = &clause{"unchanged-but-different:" + c.Name, c.What}
+		}
+		return
+	}
+	o.Nontrivial = true
+	for i, cmd := range o.Commands {
+		action, xpath, element, where, dst, ok := mpan.ParseCommand(cmd)
+		if !ok {
+			o.Inconclusive = "unparsable-command"
+			return
+		}
+		verdict := dev.Apply(action, xpath, element, where, dst)
+		switch {
+		case strings.HasPrefix(verdict, "rejected"):
+			if o.Exec == nil {
+				o.Exec = &clause{strings.Fields(verdict)[0], fmt.Sprintf("command %d %s: %s", i+1, cmd, verdict)}
+				o.ExecStep = i
+			}
+		case verdict == "unmodelled":
+			o.Inconclusive = "unmodelled-command " + action
+			return
+		}
+		if dev.OutsideVsys(managed) != before && o.Frame == nil {
+			o.Frame = &clause{"outside-vsys-changed", fmt.Sprintf("command %d %s changed configuration outside the targeted vsys", i+1, cmd)}
+		}
+		if wantPrefixes {
+			o.Prefixes = append(o.Prefixes, dev.ConfigXML())
+		}
+	}
+	if o.Exec != nil {
+		return
+	}
+	if c := panosEquiv(dev, tgt); c != nil {
+		o.Conv = &clause{"not-converged:" + c.Name, c.What}
+		return
+	}
+	pc := g.pair()
+	pc.Device = dev.ConfigXML()
+	r2 := runPair(env, pc, false)
+	if r2.Exit != 0 || r2.Stdout != "" || !strings.Contains(r2.Stderr, "comp: device unchanged") {
+		o.Conv = &clause{"second-compare-not-clean", firstLines(r2.Stdout+r2.Stderr, 4)}
+	}
 }
